@@ -894,7 +894,9 @@ func parseMovementValue(p *Parser, allowMultiple bool, closingToken token.Type) 
 	for p.curToken.Type != closingToken {
 		if p.curToken.Type == token.PORYSWITCH {
 			poryswitchCommands, err := p.parsePoryswitchListStatement(func(p *Parser, allowMultiple bool) ([]token.Token, error) {
-				return parseMovementValue(p, allowMultiple, closingToken)
+				// A case body ends at its own closing curly brace, even when the
+				// enclosing list is closed by something else (')' for moves()).
+				return parseMovementValue(p, allowMultiple, token.RBRACE)
 			})
 			if err != nil {
 				return nil, err
